@@ -294,6 +294,10 @@ def str_eq(a, b):
     return S(a) == S(b)
 
 
+def b3(x):
+    return z3.BoolVal(x) if isinstance(x, bool) else x
+
+
 def val_eq(ctx, a, b):
     """structural equality of model values -> python bool | z3 Bool"""
     a, b = deref(a), deref(b)
@@ -313,6 +317,19 @@ def val_eq(ctx, a, b):
             return False
         cs = [c for c in cs if c is not True]
         return z3.And(cs) if cs else True
+    if hasattr(a, "ordered") and hasattr(b, "ordered") and hasattr(a, "items") and hasattr(b, "items"):
+        # BTreeMap/HashMap/sets: equal as maps
+        if len(a.items) != len(b.items):
+            # with symbolic keys two entries could coincide; maps built by insert() are already deduplicated
+            return False
+        if a.ordered and b.ordered:
+            cs = [z3.And(b3(val_eq(ctx, ka, kb)), b3(val_eq(ctx, va, vb))) for (ka, va), (kb, vb) in zip(a.items, b.items)]
+        else:
+            cs = [z3.Or([z3.And(b3(val_eq(ctx, ka, kb)), b3(val_eq(ctx, va, vb))) for kb, vb in b.items] or [z3.BoolVal(False)]) for ka, va in a.items]
+        if not cs:
+            return True
+        r = z3.simplify(z3.And(cs))
+        return True if z3.is_true(r) else (False if z3.is_false(r) else r)
     if is_str(a) or is_str(b):
         return str_eq(a, b)
     if is_sym(a) or is_sym(b):
